@@ -14,6 +14,7 @@
     failed_load_is_noop lock_balanced loader_cache_bounded
     model_alphabet_is_overridden_interface default_loader_bounded
     recency_is_last_use_order evicted_is_least_recently_used wf_check_decides_wf
+    reload_current_noshadow_partial
 -/
 import Genshi.Lemmas.Lru
 import Genshi.Lemmas.LruAbs
@@ -236,6 +237,22 @@ theorem reload_current_partial (cfg : Cfg) (har : cfg.autoReload = true) (ops : 
           = some (ls', .ok t)) :
     ∃ f, (hrun cfg (World.init cfg.cap) ops).1.fs t.loc = some f ∧ f.content = t.content :=
   load_current (inv_hrun (inv_init cfg.cap) ops) har h
+
+/-- The same gap expressed as an excluding hypothesis (this is the form the generator of the
+    loader histories enforces, `gen_loader.reveals_shadow`): if whenever the request would be
+    served from the cache the cached template's file is the one found first on the search path
+    now (`NoShadow`), then — after every history — the returned template has the current content
+    of the file found first on the search path. -/
+theorem reload_current_noshadow_partial (cfg : Cfg) (har : cfg.autoReload = true) (ops : List HOp)
+    (r : Req) (hf : r.fault = .none) (ls' : LState) (t : Tmpl)
+    (hns : NoShadow cfg (hrun cfg (World.init cfg.cap) ops).1 r)
+    (h : load cfg (hrun cfg (World.init cfg.cap) ops).1.fs (hrun cfg (World.init cfg.cap) ops).1.ls r
+          = some (ls', .ok t)) :
+    ∃ key entries isabs f, resolve cfg.path.isEmpty r = some key ∧
+      searchPath cfg r key = some (entries, isabs) ∧
+      firstOnPath (hrun cfg (World.init cfg.cap) ops).1.fs key entries = some (t.loc, f) ∧
+      f.content = t.content :=
+  load_current_first (inv_hrun (inv_init cfg.cap) ops) har hf hns h
 
 def shadowCfg : Cfg := { path := [.dir 0 false, .dir 1 false], autoReload := true, cap := 2 }
 def shadowOps : List HOp :=
